@@ -12,9 +12,10 @@ import (
 )
 
 type tEdge struct {
-	op  string
-	to  string
-	dev bool
+	op   string
+	to   string
+	dev  bool
+	hist string
 }
 
 type tState struct {
@@ -25,6 +26,8 @@ type tState struct {
 	detail string
 	out    []tEdge // deduplicated on (op,to)
 	known  bool    // an S line was seen
+	noOps  bool    // a Z line was seen
+	closed int     // rounds of a K line (closure by the default fair schedule), 0 = none
 	// analysis
 	idx, low int
 	onStack  bool
@@ -36,7 +39,10 @@ type tGraph struct {
 	cfg    string
 	root   string
 	states map[string]*tState
-	nondet []string
+	nondet []string // same history, same event, different successor: the code under test is not deterministic
+	// same canonical state reached by DIFFERENT histories, same event, different successor: either
+	// nondeterminism again or the canonical form merges states with different futures
+	suspect []string
 }
 
 func loadTraces(id string) map[string]*tGraph {
@@ -80,24 +86,40 @@ func loadTraces(id string) map[string]*tGraph {
 				}
 				st := get(p[1])
 				st.known, st.mode, st.q, st.ok, st.best, st.detail = true, p[2], p[3] == "1", p[4] == "1", p[5], p[6]
+			case "K":
+				if len(p) >= 3 {
+					fmt.Sscanf(p[2], "%d", &get(p[1]).closed)
+				}
+			case "Z":
+				if len(p) >= 2 {
+					get(p[1]).noOps = true
+				}
 			case "E":
 				if len(p) < 5 {
 					continue
 				}
 				st := get(p[1])
 				get(p[2])
+				hist := ""
+				if len(p) >= 6 {
+					hist = p[5]
+				}
 				dup := false
 				for _, e := range st.out {
 					if e.op == p[4] {
 						if e.to == p[2] {
 							dup = true
-						} else if len(g.nondet) < 5 {
-							g.nondet = append(g.nondet, fmt.Sprintf("state %s op %s -> %s and %s", p[1], p[4], e.to, p[2]))
+						} else if e.hist == hist {
+							if len(g.nondet) < 5 {
+								g.nondet = append(g.nondet, fmt.Sprintf("state %s op %s -> %s and %s", p[1], p[4], e.to, p[2]))
+							}
+						} else if len(g.suspect) < 5 {
+							g.suspect = append(g.suspect, fmt.Sprintf("state %s (histories %s, %s) op %s -> %s and %s", p[1], e.hist, hist, p[4], e.to, p[2]))
 						}
 					}
 				}
 				if !dup {
-					st.out = append(st.out, tEdge{op: p[4], to: p[2], dev: p[3] == "1"})
+					st.out = append(st.out, tEdge{op: p[4], to: p[2], dev: p[3] == "1", hist: hist})
 				}
 			}
 		}
@@ -151,6 +173,9 @@ type ConfigSummary struct {
 	MaxEventsToFixed  int      `json:"max_state_changing_events_to_fixed_point"`
 	FromColdStart     int      `json:"max_state_changing_events_from_cold_start"`
 	Partial           bool     `json:"partial,omitempty"`
+	Unexpanded        int      `json:"unexpanded_states"`
+	ClosedByDefault   int      `json:"unexpanded_states_driven_to_fixed_point_by_round_robin"`
+	MaxClosingRounds  int      `json:"max_closing_rounds"`
 	Nondeterministic  []string `json:"nondeterministic_transitions,omitempty"`
 	UnboundedUnfairly bool     `json:"unbounded_without_fairness,omitempty"`
 }
@@ -165,6 +190,11 @@ func AnalyseC18(rep *report.Reporter, cov report.Coverage) {
 	sort.Strings(names)
 	var sums []ConfigSummary
 	worstBound := 0
+	for _, n := range names {
+		if g := graphs[n]; len(g.suspect) > 0 && len(g.nondet) == 0 && rep.Count() == 0 {
+			report.Fatal("C18 analysis: in %q the same canonical state, reached by different histories, has different successors for the same event although the code under test showed no nondeterminism: the canonical form merges states with different futures: %v", n, g.suspect)
+		}
+	}
 	for _, n := range names {
 		s := analyse(graphs[n], rep)
 		sums = append(sums, s)
@@ -187,7 +217,7 @@ func analyse(g *tGraph, rep *report.Reporter) ConfigSummary {
 	}
 	if len(g.nondet) > 0 {
 		rep.Add(report.Violation{Clause: "C18.unique", Key: "the same event in the same state has different outcomes (map-iteration order)",
-			Detail: "[" + g.cfg + "] " + strings.Join(g.nondet, "; "), Replay: map[string]any{"config": g.cfg}})
+			Detail: "[" + g.cfg + "] " + strings.Join(append(append([]string{}, g.nondet...), g.suspect...), "; "), Replay: map[string]any{"config": g.cfg}})
 	}
 	// expanded = has at least one recorded outgoing transition
 	hashes := make([]string, 0, len(g.states))
@@ -198,8 +228,9 @@ func analyse(g *tGraph, rep *report.Reporter) ConfigSummary {
 		}
 	}
 	sort.Strings(hashes)
+	expanded := func(st *tState) bool { return len(st.out) > 0 || st.noOps }
 	terminal := func(st *tState) bool {
-		if len(st.out) == 0 {
+		if !expanded(st) {
 			return false
 		}
 		for _, e := range st.out {
@@ -281,11 +312,19 @@ func analyse(g *tGraph, rep *report.Reporter) ConfigSummary {
 		if st.known {
 			modes[st.mode] = true
 		}
-		if len(st.out) > 0 {
+		if expanded(st) {
 			sum.Expanded++
+		} else {
+			sum.Unexpanded++
+			if st.closed > 0 {
+				sum.ClosedByDefault++
+			}
+		}
+		if st.closed > sum.MaxClosingRounds {
+			sum.MaxClosingRounds = st.closed
 		}
 		if !terminal(st) {
-			if st.q && len(st.out) > 0 {
+			if st.q && expanded(st) {
 				report.Fatal("C18 analysis: state %s of %q is flagged quiescent by the harness but a default event changes it (canonical state or quiescence predicate is wrong); path %v", h, g.cfg, g.pathTo(h))
 			}
 			continue
@@ -340,7 +379,7 @@ func analyse(g *tGraph, rep *report.Reporter) ConfigSummary {
 		expandedAll := true
 		best := 0
 		for _, st := range comp {
-			if len(st.out) == 0 {
+			if !expanded(st) {
 				expandedAll = false
 			}
 			for _, e := range st.out {
@@ -363,7 +402,7 @@ func analyse(g *tGraph, rep *report.Reporter) ConfigSummary {
 		}
 		if !nontrivial {
 			st := comp[0]
-			if !leaves && len(st.out) > 0 && !terminal(st) {
+			if !leaves && expanded(st) && !terminal(st) {
 				// cannot happen: a single state whose default edges all stay inside is terminal
 				report.Fatal("C18 analysis: inconsistent SCC classification for %s", st.hash)
 			}
@@ -384,7 +423,7 @@ func analyse(g *tGraph, rep *report.Reporter) ConfigSummary {
 		for ev := range events {
 			sat := false
 			for _, st := range comp {
-				if len(st.out) == 0 {
+				if !expanded(st) {
 					continue
 				}
 				enabled := false
